@@ -749,6 +749,25 @@ impl Gen {
     }
 
     /// Generate an expression of type `ty`.
+    /// Receiver of a list search (`contains` / `index`) and its element type: a visible
+    /// list when there is one, otherwise a literal whose element type is known without
+    /// context (strings, tracked values, i32).
+    fn search_receiver(&mut self, d: u32) -> (Expr, Ty) {
+        let et = self.scalar_ty();
+        let lt = Ty::list(et.clone());
+        let paths = self.paths_of(&lt);
+        if !paths.is_empty() && self.self_typed_possible(&et) {
+            let (root, fields) = paths[self.rng.usize(paths.len())].clone();
+            return (Expr::new(lt, EK::Path(root, fields)), et);
+        }
+        let et2 = match et {
+            Ty::Str | Ty::Trk => et,
+            _ => Ty::Int(IntTy::I32),
+        };
+        let l = self.expr(&Ty::list(et2.clone()), d.min(1), false);
+        (l, et2)
+    }
+
     pub fn expr(&mut self, ty: &Ty, depth: u32, typed: bool) -> Expr {
         self.size_budget -= 1;
         if depth == 0 || self.size_budget <= 0 {
@@ -823,6 +842,10 @@ impl Gen {
             Ty::Trk => {
                 prods.push(("construct", 15));
                 prods.push(("trk-join", 6));
+            }
+            Ty::Opt(t) if **t == Ty::Int(IntTy::U64) && self.cfg.lists => {
+                prods.push(("construct", 24));
+                prods.push(("list-index", 8));
             }
             _ => {
                 prods.push(("construct", 30));
@@ -970,24 +993,20 @@ impl Gen {
                 Expr::new(ty.clone(), EK::Bin(BinOp::Add, Box::new(l), Box::new(r)))
             }
             "fstr" => self.fstring(d),
+            "list-index" => {
+                let recv = self.search_receiver(d);
+                let a = self.expr(&recv.1, d.min(1), true);
+                self.tag(format!("method:List.index:{}", ty_tag(&recv.1)));
+                Expr::new(ty.clone(), EK::Method(Box::new(recv.0), "index".into(), vec![a]))
+            }
             "list-bool" => {
-                let et = self.scalar_ty();
-                let lt = Ty::list(et.clone());
-                let paths = self.paths_of(&lt);
-                let recv = if paths.is_empty() || !self.self_typed_possible(&et) {
-                    let et2 = Ty::Int(IntTy::I32);
-                    let l = self.expr(&Ty::list(et2.clone()), d.min(1), false);
-                    (l, et2)
-                } else {
-                    let (root, fields) = paths[self.rng.usize(paths.len())].clone();
-                    (Expr::new(lt, EK::Path(root, fields)), et)
-                };
-                if self.rng.bool() {
+                let recv = self.search_receiver(d);
+                if self.rng.chance(1, 3) {
                     self.tag("method:List.is_empty".into());
                     Expr::new(Ty::Bool, EK::Method(Box::new(recv.0), "is_empty".into(), vec![]))
                 } else {
                     let a = self.expr(&recv.1, d.min(1), true);
-                    self.tag("method:List.contains".into());
+                    self.tag(format!("method:List.contains:{}", ty_tag(&recv.1)));
                     Expr::new(Ty::Bool, EK::Method(Box::new(recv.0), "contains".into(), vec![a]))
                 }
             }
